@@ -99,6 +99,45 @@ def runCalls : List (Sp × Val) → Heap → Heap
   | [], h => h
   | c :: r, h => runCalls r (evalAuto c.1 c.2 h).2
 
+/-! ### closed inputs (no dangling references) and outcomes as an observer sees them -/
+
+mutual
+/-- every object the spec holds (a literal that is passed through) existed before address `n` -/
+def Sp.closed (n : Nat) : Sp → Bool
+  | .lit v => (match v with | .ref a => decide (a < n) | _ => true)
+  | .t steps => steps.closed n
+  | .seq _ xs => xs.closed n
+  | .dict es => es.closed n
+  | .coalesce subs _ d => subs.closed n && d.closed n
+def Sps.closed (n : Nat) : Sps → Bool
+  | .nil => true
+  | .cons x r => x.closed n && r.closed n
+def Pairs.closed (n : Nat) : Pairs → Bool
+  | .nil => true
+  | .cons k v r => k.closed n && v.closed n && r.closed n
+def Steps.closed (n : Nat) : Steps → Bool
+  | .nil => true
+  | .cons _ a r => a.closed n && r.closed n
+end
+
+def Val.closed6 (n : Nat) : Val → Bool
+  | .ref a => decide (a < n)
+  | _ => true
+
+def Obj.closed6 (n : Nat) : Obj → Bool
+  | .list _ xs => xs.all (Val.closed6 n)
+  | .tuple _ xs => xs.all (Val.closed6 n)
+  | .set _ xs => xs.all (Val.closed6 n)
+  | .dict _ es => es.all (fun e => Val.closed6 n e.1 && Val.closed6 n e.2)
+  | .inst _ as => as.all (fun e => Val.closed6 n e.2)
+
+/-- every reference held by an object of the heap points into the heap -/
+def heapClosed (h : Heap) : Bool := h.all (Obj.closed6 h.length)
+
+/-- the outcome as an observer sees it: the tree the value denotes, or the error -/
+def outView (fuel : Nat) (o : Out) : Except Err6 (Option PV) := o.1.map (view6 o.2 fuel)
+
+
 /-- the property, on one observed call: nothing that existed was written; a result that Python
     builds anew is not an old object -/
 def checkArith (h : Heap) (sp : Sp) (obs : ArithObs) : Bool :=
